@@ -149,6 +149,7 @@ func runC02(c *ev.Ctx) {
 	c02BadSizes(c)
 	c02FirstAfterVersion(c)
 	c02Client(c)
+	c02ClientBadSizes(c)
 }
 
 // c02FirstAfterVersion: the very first frame after Rversion must already obey
@@ -466,6 +467,131 @@ func c02BadSizes(c *ev.Ctx) {
 		c.Max("max_alloc_delta_inflated_count", int64(a1-a0))
 		p.Monitor()
 		p.Close()
+	}
+}
+
+// c02ClientBadSizes: the client as receiver of a size field it must refuse.
+// The limit is the msize of the session - what NewClient adopted from
+// Rversion - and never more than 4 MiB, whatever a peer agreed to. The pending
+// call must fail, no body byte may be taken, nothing of the announced size may
+// be allocated.
+func c02ClientBadSizes(c *ev.Ctx) {
+	type cfg struct{ opt, announce uint32 }
+	cfgs := []cfg{{1 << 16, 1 << 16}, {mib4, mib4}, {8 << 20, 8 << 20}, {64 << 20, 64 << 20}, {8 << 20, 1 << 16}, {1<<32 - 1, 1<<32 - 1}, {mib4 + 1, mib4 + 1}, {1 << 20, 1 << 20}}
+	idx := 0
+	for _, cf := range cfgs {
+		limit := cf.opt
+		if cf.announce < limit {
+			limit = cf.announce
+		}
+		if limit > mib4 {
+			limit = mib4
+		}
+		sizes := []uint32{0, 6, limit + 1, limit + 2, mib4 + 1, 5 << 20, 1 << 31, 1<<32 - 1}
+		if cf.announce > mib4 {
+			sizes = append(sizes, cf.announce, cf.announce-1, mib4+4096)
+		}
+		for _, sz := range sizes {
+			if sz >= 7 && sz <= limit {
+				continue
+			}
+			for _, kind := range "GR" {
+				idx++
+				if !c.Mine(idx) {
+					continue
+				}
+				c.Begin(fmt.Sprintf("C02 client bad size=%d option=%d announced=%d kind=%c", sz, cf.opt, cf.announce, kind))
+				armed := false
+				auto := fakesrv.Auto(0, 7)
+				var w0 int64
+				fs := fakesrv.New(nil)
+				fs.Handler = func(s *fakesrv.Server, rq *fakesrv.Req) {
+					if rq.Err == nil && rq.Msg.Type == wire.Tversion {
+						ms := uint32(rq.Msg.F[0].(uint64))
+						if ms > cf.announce {
+							ms = cf.announce
+						}
+						s.SetNegotiated(ms, 7)
+						s.Reply(wire.Rversion, rq.Msg.Tag, uint64(ms), v7)
+						return
+					}
+					if !armed || rq.Err != nil || rq.Msg.Type == wire.Tclunk {
+						auto(s, rq)
+						return
+					}
+					armed = false
+					t, _ := fakesrv.Derived(rq.Msg, 1<<16)
+					s.Flush()
+					w0 = s.Written()
+					s.SendRaw(hdr(sz, t, rq.Msg.Tag))
+					if sz > 7 {
+						n := int(minU64(uint64(sz-7), 1<<16))
+						for n > 0 {
+							k := minI(n, 64)
+							s.SendRaw(make([]byte, k))
+							n -= k
+						}
+					}
+				}
+				var cl *p9.Client
+				var err error
+				if !ev.Watch(60*time.Second, func() { cl, err = p9.NewClient(fs.C, p9.WithMessageSize(cf.opt)) }) || err != nil {
+					c.Inconclusive(fmt.Sprintf("C02 client bad size: NewClient: %v", err))
+					fs.Shutdown()
+					continue
+				}
+				var root p9.File
+				if !ev.Watch(60*time.Second, func() { root, err = cl.Attach("") }) || err != nil {
+					c.Inconclusive("C02 client bad size: attach")
+					fs.Shutdown()
+					continue
+				}
+				armed = true
+				a0 := totalAlloc()
+				done := make(chan struct{})
+				var gerr error
+				go func() {
+					defer close(done)
+					if kind == 'G' {
+						_, _, _, gerr = root.GetAttr(p9.AttrMaskAll)
+					} else {
+						_, gerr = root.ReadAt(make([]byte, 100), 0)
+					}
+				}()
+				select { // plain wait first: quiescence probes allocate
+				case <-done:
+				case <-time.After(2 * time.Second):
+				}
+				a1 := totalAlloc()
+				out, dump := quiesce.Await(done, wd)
+				cls := sizeClass(sz, limit)
+				if sz > mib4 && sz <= cf.announce {
+					cls = "above-4MiB-within-announced"
+				}
+				det := map[string]any{"size_field": sz, "client_option": cf.opt, "announced_msize": cf.announce, "limit": limit, "pending_call": string(kind)}
+				c.Case(fmt.Sprintf("cli-size:%s:%d:%d:%c", cls, cf.opt, cf.announce, kind), true)
+				if out != quiesce.CondMet {
+					det["body_bytes_accepted"] = fs.Written() - w0 - 7
+					hang(c, out, dump, "C02:cli:pending-call-hangs-on-bad-size-field:"+cls, det)
+					fs.Shutdown()
+					continue
+				}
+				if gerr == nil || gerr == io.EOF {
+					c.Violation("C02:cli:call-succeeds-on-bad-size-field:"+cls, det)
+				}
+				if acc := fs.Written() - w0 - 7; acc > 0 {
+					det["body_bytes_accepted"] = acc
+					c.Violation("C02:cli:body-read-after-bad-size-field:"+cls, det)
+				}
+				if d := a1 - a0; d > 1<<20 {
+					det["alloc_delta"] = d
+					c.Violation("C02:cli:allocation-on-bad-size-field:"+cls, det)
+				}
+				c.Max("max_alloc_delta_bad_size_client", int64(a1-a0))
+				c.Count("client_bad_size_cases", 1)
+				fs.Shutdown()
+			}
+		}
 	}
 }
 
